@@ -379,6 +379,16 @@ def r5(ctx):
             src = slot_of(rf, c.args[1].func.value, c) if recv else None
             ok = ok and c.args[1].func.attr == "payload" and (src or "").startswith("self.received_fragments[")
             ctx.check(ok, "C06.R5", rf, c, "a reassembled message is delivered only when complete, as the joined slots", witness=conds, line=c.lineno)
+            # ... and *whenever* it is complete: the completeness test runs after every fragment that was stored, and nothing but
+            # its outcome stands between a stored fragment and the delivery (fragments arrive in any order: the one that completes
+            # the message need not be the last one)
+            ics = [x for x in walk_own(rf.node) if isinstance(x, ast.Call) and isinstance(x.func, ast.Attribute) and x.func.attr == "isComplete"]
+            if ics:
+                ic_conds = [(norm(t), p) for (t, p) in cfg.conditions_of(cfg.node_of(ics[0]).id)]
+                dl_conds = [(t, p) for (t, p) in conds if not t.endswith(".isComplete()")]
+                ctx.check(not ic_conds and not dl_conds, "C06.R5", rf, "completeness is tested after every stored fragment and alone decides the delivery",
+                          "a test that is only made for some fragments (the one with the last index, the first one, ...) leaves a message whose completing "
+                          "fragment is another one undelivered for ever", witness={"before_isComplete": ic_conds, "besides_isComplete": dl_conds}, line=c.lineno)
             # the context is deleted after delivery
             dels = [n for n in walk_own(rf.node) if isinstance(n, ast.Delete) and norm(n.targets[0]).startswith("self.received_fragments[")]
             ctx.check(len(dels) >= 1, "C06.R5", rf, "the reassembly context is removed after delivery", "a completed message is not delivered again by a later fragment")
